@@ -4,6 +4,7 @@
 -/
 import Rsp.Lemmas.Ttl
 import Rsp.Spec.Ttl
+import Rsp.Model.World
 namespace Rsp.Props.C13
 open Rsp Rsp.Ttl
 
@@ -114,5 +115,66 @@ example : decttl [1, 0, 0] = (1, [0, 255, 255]) := by decide
 example : decttl [0, 0, 1] = (0, [0, 0, 0]) := by decide
 example : decttl [0, 0] = (0, [0, 0]) := by decide
 example : decttl [] = (0, []) := by decide
+
+/-! ### the TTL attribute inside a message, AddTTL, loop prevention -/
+open Rsp.World Rsp.Radmsg in
+/-- plain TTL attribute type: `checkttl` decrements the FIRST attribute of that type (per
+    `decttl`) and leaves every other attribute, and the order, unchanged; without such an
+    attribute it reports -1 and changes nothing. -/
+theorem checkttl_plain (ty : Nat) (as : List Tlv) :
+    (∀ a ∈ as, a.t.toNat ≠ ty) → checkttl (ty, 256) as = (-1, as) := by
+  intro h
+  unfold checkttl
+  simp only [if_true]
+  have : ∀ (pre rest : List Tlv), (∀ a ∈ rest, a.t.toNat ≠ ty) → checkttl.go (ty, 256) pre rest = (-1, pre.reverse ++ rest) := by
+    intro pre rest
+    induction rest generalizing pre with
+    | nil => intro _; simp [checkttl.go]
+    | cons a t ih =>
+      intro hh
+      have ha : ¬ a.t.toNat = ty := hh a (by simp)
+      simp only [checkttl.go, ha, if_false]
+      rw [ih (a :: pre) (fun x hx => hh x (by simp [hx]))]
+      simp
+  simpa using this [] as h
+
+open Rsp.World Rsp.Radmsg in
+theorem checkttl_plain_first (ty : Nat) (pre : List Tlv) (a : Tlv) (rest : List Tlv)
+    (hpre : ∀ x ∈ pre, x.t.toNat ≠ ty) (ha : a.t.toNat = ty) :
+    checkttl (ty, 256) (pre ++ a :: rest) = (((decttl a.v).1 : Int), pre ++ { a with v := (decttl a.v).2 } :: rest) := by
+  unfold checkttl
+  simp only [if_true]
+  have : ∀ (acc : List Tlv), checkttl.go (ty, 256) acc (pre ++ a :: rest) =
+      (((decttl a.v).1 : Int), acc.reverse ++ pre ++ { a with v := (decttl a.v).2 } :: rest) := by
+    induction pre with
+    | nil => intro acc; simp [checkttl.go, ha]
+    | cons p t ih =>
+      intro acc
+      have hp : ¬ p.t.toNat = ty := hpre p (by simp)
+      simp only [List.cons_append, checkttl.go, hp, if_false]
+      rw [ih (fun x hx => hpre x (by simp [hx])) (p :: acc)]
+      simp
+  simpa using this []
+
+open Rsp.World Rsp.Radmsg in
+/-- AddTTL appends one attribute holding the configured value as a 4-octet integer
+    (plain type) -/
+theorem addttl_plain (ty n : Nat) (as : List Tlv) :
+    addttlattr (ty, 256) n as = as ++ [{ t := UInt8.ofNat ty, v := [0, 0, 0, UInt8.ofNat n] }] := by
+  unfold addttlattr; simp
+
+open Rsp.World in
+/-- the per-peer AddTTL value overrides the global one; 0 = unset -/
+theorem effAddTtl_table (opts : Options) (peer : Nat) :
+    (peer ≠ 0 → effAddTtl opts peer = peer) ∧ (peer = 0 → effAddTtl opts peer = opts.addttl) := by
+  unfold effAddTtl; constructor <;> intro h <;> simp [h]
+
+open Rsp.World in
+/-- **Loop prevention decision.** A request is held back exactly when loop prevention is
+    in effect for the server (on there, or unset there and on globally) and the block
+    names are equal octet for octet. -/
+theorem loopPrevents_iff (opts : Options) (cc : CliConf) (sc : SrvConf) :
+    loopPrevents opts cc sc = true ↔ (sc.loopPrev = 1 ∨ (sc.loopPrev = 255 ∧ opts.loopPrev = true)) ∧ cc.name = sc.name := by
+  unfold loopPrevents; simp
 
 end Rsp.Props.C13
